@@ -93,6 +93,17 @@ func (c15) Gen(r *Rand, idx int, tier string) interface{} {
 		}
 		return p
 	}
+	if r.Intn(1000) == 0 {
+		// one very large read: a value of 16 MiB and a little more (the text and image types announce their length
+		// with 32 bits and are read in one piece), enqueued in packets of the largest size
+		p := &c15Plan{Side: "recv", Size: 65535}
+		total := 16<<20 + r.Intn(70000)
+		for got := 0; got < total; got += 65527 {
+			p.Ops = append(p.Ops, qOp{Op: "add", N: 65527})
+		}
+		p.Ops = append(p.Ops, qOp{Op: "bytes", N: 3}, qOp{Op: "bytes", N: total - 3 - r.Intn(3), Alt: 1}, qOp{Op: "toend"})
+		return p
+	}
 	p := &c15Plan{Size: 9 + r.Intn(592), StartNr: Pick(r, []int{0, 0, 250, 253, 255})}
 	if r.Pct(25) {
 		p.Size = Pick(r, []int{9, 10, 11, 16, 512})
@@ -171,6 +182,13 @@ func (c15) Gen(r *Rand, idx int, tier string) interface{} {
 				p.Ops = append(p.Ops, qOp{Op: "w64"})
 			case c < 78:
 				p.Ops = append(p.Ops, qOp{Op: "wstr", N: r.Intn(body + 4)})
+			case c < 86:
+				// fill the open packet exactly (the cursor then sits at the very end of a full packet), usually
+				// followed at once by a small typed write
+				p.Ops = append(p.Ops, qOp{Op: "wfill"})
+				if r.Pct(70) {
+					p.Ops = append(p.Ops, qOp{Op: Pick(r, []string{"w8", "w8", "w16", "w32", "w64"})})
+				}
 			default:
 				p.Ops = append(p.Ops, qOp{Op: "size", N: 9 + r.Intn(592)})
 			}
@@ -227,6 +245,7 @@ func (c15) Run(plan interface{}, schedSeed uint64, replay []simrt.Choice, lenien
 	v := &Verdict{}
 	var viol []string
 	crossed := false
+	wroteAfterFill := false
 	fail := func(class, sig, format string, a ...interface{}) {
 		if len(viol) == 0 {
 			viol = []string{class, sig, fmt.Sprintf(format, a...)}
@@ -498,11 +517,16 @@ func (c15) Run(plan interface{}, schedSeed uint64, replay []simrt.Choice, lenien
 			}
 			written = append(written, b...)
 		}
+		exactFill := false
 		for _, o := range p.Ops {
 			if len(viol) > 0 {
 				return
 			}
 			var err error
+			if exactFill && o.Op[0] == 'w' {
+				wroteAfterFill = true
+			}
+			exactFill = false
 			switch o.Op {
 			case "write":
 				b := gen(o.N)
@@ -520,6 +544,19 @@ func (c15) Run(plan interface{}, schedSeed uint64, replay []simrt.Choice, lenien
 				for i := range b {
 					b[i] = 0xEE
 				}
+			case "wfill":
+				n := size - 8
+				if len(caps) > 0 && fill < caps[len(caps)-1] {
+					n = caps[len(caps)-1] - fill
+				}
+				b := gen(n)
+				err = q.WriteBytes(b)
+				write(b)
+				for i := range b {
+					b[i] = 0xEE
+				}
+				exactFill = true
+				continue
 			case "w8":
 				b := gen(1)
 				switch o.Alt {
@@ -600,12 +637,19 @@ func (c15) Run(plan interface{}, schedSeed uint64, replay []simrt.Choice, lenien
 	if len(viol) > 0 {
 		v.Violate(viol[0], viol[1], "side %s, packet size %d, ops %v: %s", p.Side, p.Size, opsString(p.Ops), viol[2])
 	}
+	BlockedTasks(v, out, fmt.Sprintf("side %s, packet size %d, ops %v: an operation never returned", p.Side, p.Size, opsString(p.Ops)))
 	if crossed {
 		v.Nontrivial = p.Side + opsString(p.Ops) + fmt.Sprint(p.Size)
 		v.Probe("crossed-packet-boundary")
 	}
 	if p.Enum {
 		v.Probe("enumerated")
+	}
+	if wroteAfterFill {
+		v.Probe("write-at-the-end-of-an-exactly-filled-packet")
+	}
+	if p.Size == 65535 && len(p.Ops) > 200 {
+		v.Probe("read-of-16-MiB")
 	}
 	v.Probe("side:" + p.Side)
 	v.Sample = map[string]interface{}{"side": p.Side, "size": p.Size, "ops": opsString(p.Ops)}
@@ -636,5 +680,5 @@ func opsString(ops []qOp) string {
 
 // RequiredProbes: a batch in which one of these never fired explored nothing of that kind (exit 2, not a pass).
 func (c15) RequiredProbes() []string {
-	return []string{"crossed-packet-boundary", "enumerated", "side:send", "side:recv"}
+	return []string{"crossed-packet-boundary", "enumerated", "side:send", "side:recv", "write-at-the-end-of-an-exactly-filled-packet", "read-of-16-MiB"}
 }
